@@ -12,7 +12,9 @@ type Def struct {
 	Rule        string
 	Assumptions []string
 	MinSigs     int // fewer distinct non-trivial signatures than this => inconclusive
-	Run         func(e *fw.Env)
+	// Exhaustive is set when the run enumerates a finite space completely (what space: see Rule).
+	Exhaustive bool
+	Run        func(e *fw.Env)
 	// MaxShards caps the number of worker processes (0 = default).
 	MaxShards int
 }
@@ -46,13 +48,19 @@ var commonAssumptions = []string{
 
 func init() {
 	register(&Def{
+		ID: "C07", Level: "exploration", MinSigs: 20,
+		Rule:        "(1) twin chains: per shard one history of 60 (thorough 500) blocks WITHOUT any packet addressed to the orbiter account - forged incoming packets to 18 non-orbiter receivers incl. near misses of the orbiter address, memos containing valid and malformed orbiter payloads, PFM-style and 32 KiB memos, random bytes, hostile ICS-20 data, foreign/returning denoms; outgoing MsgTransfer with hostile memos; MsgRecvPacket on the peer end, MsgAcknowledgement and MsgTimeout of those packets; orbiter pause/unpause messages - is executed on the real chain and on a chain whose IBC router holds blockibc(transfer) only: equal AppHash after every block, equal tx code, data, acknowledgement bytes, ordered events, gas. (2) per packet on two branches of one state: entrypoint(transfer) vs transfer alone for arbitrary bytes, bit flips, hostile data and arbitrary port/channel identifiers under random orbiter pause/parameter/dust states: equal acknowledgement bytes, events, digest of all 13 stores. distinct = acknowledgement classes seen on the twin and (envelope class, ack class) of the per-packet part",
+		Assumptions: append([]string{"channel-handshake callbacks are exercised only by the handshakes the world performs", "a packet on which the wrapped ICS-20 application itself panics (without the middleware) is not attributed to the middleware"}, commonAssumptions...),
+		Run:         withLab(world.Config{}, CheckC07),
+	})
+	register(&Def{
 		ID: "C06", Level: "exploration", MinSigs: 25,
 		Rule:        "an alternative keeper over the same stores registers the real fee controller and a test controller under ACTION_SWAP that records the coin it is handed, really swaps it through the bank against a pool account at a PRNG-chosen rate and sets destination amount and denom (second configuration: only the swap controller registered); PRNG-drawn action orders [], [fee], [swap], [fee,swap], [swap,fee], [swap,fee,swap], [fee,fee], [swap,swap] x amounts x rates x routes chosen for the FINAL denomination; the model folds the list: the swap controller must have seen exactly the running coin, fee credits must be floor on the running amount in the running denomination, the recorded bridge request must carry the last action's output coin, statistics get one entry (same denom) or two (changed denom); repeated identifiers and actions without controller must be refused. distinct = (order, registry configuration, route, denom changed?, rate)",
 		Assumptions: append([]string{"only two action identifiers exist in the enum, so 'any set of controllers' is the subsets of {fee, swap}"}, commonAssumptions...),
 		Run:         withLab(world.Config{}, CheckC06),
 	})
 	register(&Def{
-		ID: "C03", Level: "fault_enumeration", MinSigs: 100,
+		ID: "C03", Level: "fault_enumeration", MinSigs: 100, Exhaustive: true,
 		Rule:        "payload shapes = {CCTP, CCTP with caller, Hyperlane, internal} x {no fee, 1 fee, 5 fees} x {dust on the orbiter account, none}; for each shape a fault-free run on the alternative stack counts the calls at every injection site (bank SendCoins per fee, module-to-module sweep, CCTP DepositForBurn / WithCaller, warp Token and RemoteTransfer, bank Msg/Send, EventManager.Emit per event), then ONE run per (site, k-th call) - complete enumeration of single faults - plus the wrapped application returning an error acknowledgement before and after doing its work (thorough: ordered pairs of sites), each through the bare middleware (mode C) and through the real core MsgRecvPacket handler with the alternative stack installed in the IBC router (mode H); oracle: the wrapper recorded that the fault fired => acknowledgement present and not a success, and ledger, supply, statistics and orbiter store digest unchanged. Natural failures on the native wiring: blacklisted fee/internal recipient, paused token factory, burn limit, domain without messenger, unenrolled router, wrong-denom token, blocked recipient, insufficient escrow, non-burnable denom, gas paymaster without funds. A fault armed but not reached is inconclusive. distinct = (shape, fault, mode, outcome)",
 		Assumptions: append([]string{"faults are errors returned by dependencies, not crashes of the node; store-level write failures cannot be injected without touching the SDK", "exhaustive refers to single faults over the listed shapes and sites"}, commonAssumptions...),
 		Run:         withLab(world.Config{}, CheckC03),
